@@ -233,6 +233,8 @@ func (evm *EVM) Call(caller ContractRef, addr common.Address, input []byte, gas 
 	// when we're in homestead this also counts for code storage gas errors.
 	if err != nil {
 		evm.StateDB.RevertToSnapshot(snapshot)
+		// the logs of a reverted frame are reverted with the rest of its effects
+		logs = nil
 		if err != ErrExecutionReverted {
 			gas = 0
 		}
@@ -312,6 +314,8 @@ func (evm *EVM) DelegateCall(caller ContractRef, addr common.Address, input []by
 	}
 	if err != nil {
 		evm.StateDB.RevertToSnapshot(snapshot)
+		// the logs of a reverted frame are reverted with the rest of its effects
+		logs = nil
 		if err != ErrExecutionReverted {
 			gas = 0
 		}
@@ -360,6 +364,8 @@ func (evm *EVM) StaticCall(caller ContractRef, addr common.Address, input []byte
 	}
 	if err != nil {
 		evm.StateDB.RevertToSnapshot(snapshot)
+		// the logs of a reverted frame are reverted with the rest of its effects
+		logs = nil
 		if err != ErrExecutionReverted {
 			gas = 0
 		}
@@ -456,6 +462,8 @@ func (evm *EVM) create(caller ContractRef, codeAndHash *codeAndHash, gas uint64,
 	// when we're in homestead this also counts for code storage gas errors.
 	if maxCodeSizeExceeded || (err != nil && err != ErrCodeStoreOutOfGas) {
 		evm.StateDB.RevertToSnapshot(snapshot)
+		// the logs of a reverted frame are reverted with the rest of its effects
+		logs = nil
 		if err != ErrExecutionReverted {
 			contract.UseGas(contract.Gas)
 		}
@@ -537,6 +545,8 @@ func (evm *EVM) AuthCall(sponsor common.Address, caller ContractRef, addr common
 	// when we're in homestead this also counts for code storage gas errors.
 	if err != nil {
 		evm.StateDB.RevertToSnapshot(snapshot)
+		// the logs of a reverted frame are reverted with the rest of its effects
+		logs = nil
 		if err != ErrExecutionReverted {
 			gas = 0
 		}
